@@ -43,6 +43,23 @@ Definition same_set (a b : list nat) : bool :=
 
 (* reason codes: 1 unknown label, 2 result differs, 3 handle differs, 4 resource differs,
    5 write set differs, 6 attachment differs, 7 model rejected the op *)
+(* dict iteration results are compared up to order: key order after reloads / bulk updates is unspecified *)
+Definition perm_eqb (l m : list val) : bool :=
+  Nat.eqb (length l) (length m)
+  && forallb (fun x => Nat.eqb (length (filter (veq_strict x) l)) (length (filter (veq_strict x) m))) l.
+Definition order_free_op (o : kop) : bool :=
+  match o with
+  | KOp _ _ (OD DKeys) | KOp _ _ (OD DIter) | KOp _ _ (OD DValues) | KOp _ _ (OD DItems) => true
+  | _ => false
+  end.
+Definition res_eqb_for (o : kop) (a b : res val) : bool :=
+  if order_free_op o then
+    match a, b with
+    | Ok (VL l), Ok (VL m) => perm_eqb l m
+    | _, _ => res_eqb a b
+    end
+  else res_eqb a b.
+
 Definition check_step (T : class_table) (st : mstate * lmap) (k : kstep)
   : (mstate * lmap) + nat :=
   let (s, m) := st in
@@ -71,7 +88,7 @@ Definition check_step (T : class_table) (st : mstate * lmap) (k : kstep)
       | KAny, _ => after m
       | KVal _ _, MDetached => after m
       | KVal rexp lexp, MR rm hm =>
-          if negb (res_eqb rm rexp) then inr 2%nat
+          if negb (res_eqb_for (k_op k) rm rexp) then inr 2%nat
           else
             match lexp, hm with
             | None, None => after m
